@@ -42,6 +42,7 @@ var (
 
 	tracebackBlacklist = map[string]bool{
 		"pgregory.net/rapid.(*customGen[...]).maybeValue.func1": true,
+		"pgregory.net/rapid.(*customGen[...]).maybeValue.func2": true,
 		"pgregory.net/rapid.runAction.func1":                    true,
 		"pgregory.net/rapid.checkOnce.func2":                    true,
 		"pgregory.net/rapid.(*T).cleanup.func1":                 true,
